@@ -167,6 +167,23 @@ def gen_cases(tier, seed):
                      "planted": [], "wt": wt_, "mode": "edge"}
             for oo_ in ({}, {"optimize_with_greedy": False}):
                 cases.append({"spec": I.spec_of(base_), "mode": "edge", "wt": wt_, "cons": [], "cov": 1.0, "ignore": ig_, "oo": oo_, "tag": "corpus-ignored-shared"})
+    # everything behind a waist node is ignored but keeps its (conserving) values, which split the total differently from the part that has to be
+    # explained: a level cut made of ignored edges says nothing about the weights of a minimum decomposition (lower-bound helpers must not use it)
+    for i in range(8 if tier == "quick" else 60):
+        rng = gen.rng_for("C03tail", seed, i)
+        a_ = rng.randint(2, 3); A_ = [rng.randint(1, 6) for _ in range(a_)]; T_ = sum(A_)
+        b_ = rng.randint(2, 3); cuts_ = sorted(rng.sample(range(1, T_), min(b_ - 1, T_ - 1))); B_ = [y - x for x, y in zip([0] + cuts_, cuts_ + [T_])]
+        wt_ = rng.choice(["int", "float"]); sc_ = 1 if wt_ == "int" else rng.choice([1.0, 0.5, 2.5])
+        fl_ = {}
+        for j, w in enumerate(A_):
+            fl_[("s", f"x{j}")] = w * sc_; fl_[(f"x{j}", "m")] = w * sc_
+        ig_ = []
+        for j, w in enumerate(B_):
+            fl_[("m", f"y{j}")] = w * sc_; fl_[(f"y{j}", "t")] = w * sc_; ig_ += [["m", f"y{j}"], [f"y{j}", "t"]]
+        eds_ = list(fl_); rng.shuffle(eds_)
+        base_ = {"nodes": ["s", "m", "t"] + [f"x{j}" for j in range(a_)] + [f"y{j}" for j in range(len(B_))], "edges": eds_, "flow": {e: fl_[e] for e in eds_}, "planted": [], "wt": wt_, "mode": "edge"}
+        cases.append({"spec": I.spec_of(base_), "mode": "edge", "wt": wt_, "cons": [], "cov": 1.0, "ignore": ig_, "tag": "ignored-tail",
+                      "oo": rng.choice([OPTS[4], OPTS[4], OPTS[3], {"use_min_gen_set_lowerbound": True, "use_min_gen_set_lowerbound_partition_constraints": True}, OPTS[7], OPTS[5]])})
     # corpus (thorough tier, seed 2): at magnitude 1e7 HiGHS' presolve declares the 3-path model infeasible (known finding, classified by re-solving)
     cases.append({"mode": "edge", "wt": "int", "cons": [[["2", "3"], ["3", "4"]]], "cov": 0.75, "ignore": [], "planted": 4, "mag": "1e6",
                   "oo": {"optimize_with_flow_safe_paths": False, "optimize_with_safe_paths": False, "optimize_with_safe_sequences": True, "optimize_with_greedy": False},
